@@ -909,3 +909,16 @@ fn test_exp_modn() {
         exp_modn_large(&zn, &zn.from_int(two), &U1024::cast_from(p480 - Uint::ONE))
     );
 }
+
+/// Verification hooks (only with `--cfg yamaquasi_verif`): the private stage-2 table.
+#[cfg(yamaquasi_verif)]
+pub mod verif_hooks {
+    use super::*;
+
+    pub fn vh_stage2_params(b2: f64) -> (f64, u64, u64) {
+        stage2_params(b2)
+    }
+    pub fn vh_stage2_table() -> &'static [(f64, u64, u64)] {
+        STAGE2_PARAMS
+    }
+}
